@@ -183,6 +183,13 @@ def gen_scenario(seed, opts):
             argv += r.pick([["-MP"], ["-MT", "tgt%d" % i], ["-MF", "depm%d.d" % i]])
         if r.below(4) == 0:
             argv.append("-fPIC" if r.below(2) else "-O2")
+        if r.below(3) == 0:
+            # options that must not change the contract: they only exercise other paths of the argument parser
+            deco = [["-I."], ["-DX=1"], ["-D", "Y"], ["-UFOO"], ["-std=c11"], ["-w"], ["-g"], ["-idirafter", "d0"], ["-include", "common.h"], ["-fcommon"], ["-fno-common"], ["-Wall"]]
+            if mode == "link" and tools == "stub":
+                deco += [["-lm"], ["-Wl,-x,-y"], ["-L."], ["-L", "d1"], ["-s"], ["-Xlinker", "--foo"], ["-static"], ["-shared"]]
+            for _ in range(r.range(1, 2)):
+                argv += r.pick(deco)
         argv += [n for n, _ in inputs]
         if use_o:
             if r.below(2):
@@ -306,6 +313,9 @@ def model(inv, files):
         a = argv[i]
         if a == "-o":
             out = argv[i + 1]
+            i += 2
+            continue
+        if a in ("-D", "-U", "-I", "-idirafter", "-include", "-L", "-Xlinker", "-x", "-MQ"):
             i += 2
             continue
         if a in ("-MF", "-MT"):
